@@ -33,7 +33,9 @@ def measure(cell, seed, npts, aux):
     for k in range(npts):
         rng = c.rng_for(seed, LAW, cell, k)
         D = c.diagonal_tower(rng, order)
-        a1, a0 = c.directed(c.coupling_pair(rng), cell["dir"])
+        # the U series converges like (a / |nearest zero of beta|)^K: keep a well inside
+        hi = 0.02 if refine == "max-order" else 0.05
+        a1, a0 = c.directed(c.coupling_pair(rng, 0.002, hi), cell["dir"])
         e = [kern.ns(order, cp, D[:, i, i], a1, a0, nf) for i in range(2)]
         if refine == "none":
             worst = c.worse(worst, _res(kern.singlet(order, m, D, a1, a0, nf), e))
